@@ -24,7 +24,7 @@ type intervening struct {
 }
 
 func genIntervening(g simkit.G, p *pool) intervening {
-	switch g.Intn(11) {
+	switch g.Intn(12) {
 	case 0:
 		xs := append([]float64(nil), p.fl[g.Intn(len(p.fl))]...)
 		ws := append([]float64(nil), xs...)
@@ -95,6 +95,13 @@ func genIntervening(g simkit.G, p *pool) intervening {
 			stats.MannWhitneyExactLimit, stats.MannWhitneyTiesExactLimit = el, tl
 			defer func() { stats.MannWhitneyExactLimit, stats.MannWhitneyTiesExactLimit = oe, ot }()
 			stats.MannWhitneyUTest(x1, x2, stats.LocationDiffers)
+		}}
+	case 10:
+		y := 0.3 + 0.6*g.Unit()
+		return intervening{fmt.Sprintf("aborted call of the shared InvCDF closure (the distribution's CDF panics), y=%v", y), func() {
+			p.crashD.armed = true
+			defer func() { p.crashD.armed = false }()
+			p.invS(y)
 		}}
 	case 9:
 		adj := p.adj[g.Intn(len(p.adj))]
